@@ -190,9 +190,12 @@ impl Prop for C17 {
     fn generate(r: &mut Rng, tier: Tier, _idx: u64) -> Scn {
         let odd = r.chance(1, 3);
         let big = if odd && r.chance(1, 4) { Some(r.urange(16385, 20000)) } else { None };
-        let o = Opts { request: true, hostile: Hostile::None, fancy_headers: r.chance(1, 3), odd_order: odd, self_ref: r.chance(1, 4), continuation: false, big_frame: big, announce_max_frame: r.chance(1, 10) };
+        let o = Opts { request: true, hostile: Hostile::None, fancy_headers: r.chance(1, 3), odd_order: odd, self_ref: r.chance(1, 4), continuation: false, big_frame: big, announce_max_frame: r.chance(1, 10), huge_block: 0 };
+        // one stream in forty carries a header block of tens to hundreds of KiB (one HEADERS frame and up to ~36 maximal CONTINUATION frames)
+        let huge = if r.chance(1, 40) { *r.pick(&[20_000usize, 70_000, 150_000, 270_000, 400_000, 600_000]) + r.usize_below(5000) } else { 0 };
+        let o = Opts { huge_block: huge, ..o };
         let (stream, structure) = http2::connection_start(r, &o);
-        let n = tier.pick(10, 24);
+        let n = if huge > 0 { 2 } else { tier.pick(10, 24) };
         let chunkings = (0..n).map(|_| gen_cuts(r, stream.len(), &structure)).collect();
         Scn { stream, structure, chunkings, reuse_after_reset: r.chance(1, 4) }
     }
@@ -202,7 +205,7 @@ impl Prop for C17 {
         let n = tier.pick(3, 40);
         for h in 0..n {
             let mut r = Rng::new(0xC17_0000 + h as u64);
-            let o = Opts { request: true, hostile: Hostile::None, fancy_headers: false, odd_order: h % 3 == 2, self_ref: false, continuation: false, big_frame: None, announce_max_frame: false };
+            let o = Opts { request: true, hostile: Hostile::None, fancy_headers: false, odd_order: h % 3 == 2, self_ref: false, continuation: false, big_frame: None, announce_max_frame: false, huge_block: 0 };
             let (stream, structure) = loop {
                 let (s, st) = http2::connection_start(&mut r, &o);
                 if s.len() <= 400 {
@@ -245,6 +248,9 @@ impl Prop for C17 {
                 }
             }
             st.fault_n("chunk_cut", cuts.len() as u64);
+            if scn.stream.len() > 262_144 {
+                st.probe("header_block_above_256KiB");
+            }
             check_incremental(scn, cuts, st)?;
         }
         if scn.reuse_after_reset {
@@ -274,10 +280,23 @@ impl Prop for C17 {
             }
         }
         if scn.chunkings.len() == 1 {
-            for i in 0..scn.chunkings[0].len() {
+            let n = scn.chunkings[0].len();
+            if n > 32 {
+                // many cuts (byte-by-byte feeding of a long stream): halve instead of proposing one candidate per cut
+                for keep in [0usize, 1] {
+                    let mut s = scn.clone();
+                    s.chunkings[0] = scn.chunkings[0].iter().enumerate().filter(|(i, _)| (*i < n / 2) == (keep == 0)).map(|(_, c)| *c).collect();
+                    out.push(s);
+                }
                 let mut s = scn.clone();
-                s.chunkings[0].remove(i);
+                s.chunkings[0] = scn.chunkings[0].iter().step_by(2).cloned().collect();
                 out.push(s);
+            } else {
+                for i in 0..n {
+                    let mut s = scn.clone();
+                    s.chunkings[0].remove(i);
+                    out.push(s);
+                }
             }
         }
         if !scn.chunkings.is_empty() {
